@@ -76,7 +76,7 @@ func run(c *wk.Ctx) {
 func smallOptions(r *rand.Rand) model.OptSet {
 	os := model.RandomOptions(r, model.OptConstraints{})
 	os.O.WriteBuffer = []int{1 << 10, 4 << 10, 16 << 10}[r.Intn(3)]
-	os.O.OpenFilesCacheCapacity = 500 // Get racing Close with a tiny cache is C09's known finding
+	os.O.OpenFilesCacheCapacity = 500 // Get racing Close with a tiny cache was C09's finding F10 (fixed since)
 	os.Desc["WriteBuffer"], os.Desc["OpenFilesCacheCapacity"] = os.O.WriteBuffer, 500
 	return os
 }
